@@ -75,6 +75,11 @@ impl Link {
         self.ops.push(op)
     }
 
+    #[cfg(ae9rb_basic_lang_verif)]
+    pub fn verif_data(&self) -> (usize, usize) {
+        (self.data.len(), self.data_pos)
+    }
+
     pub fn transform_to_data(&mut self, col: &Column) -> Result<()> {
         if self.ops.len() == 1 {
             if let Some(Opcode::Literal(val)) = self.ops.drain(..).next() {
